@@ -114,6 +114,18 @@ def mutations():
     def _(d): F_(T_(d, "Root"), "OneA")["params"].append(param("b", "Boolean!", B(True)))
     @m("default_enum_literal")
     def _(d): F_(T_(d, "Root"), "OneA")["params"][0] = param("x", "Int", E("FOO"))
+    # the position of the ill-fitting default among several parameters (with and without defaults around it), on an entrypoint and on an edge
+    @m("default_bad_after_param_without_default")
+    def _(d): F_(T_(d, "Root"), "OneA")["params"] = [param("plain", "Int"), param("x", "String", I(123))]
+    @m("default_null_for_nonnull_after_param_without_default")
+    def _(d):
+        F_(T_(d, "B"), "toMid")["params"] = [param("plain", "Int"), param("k", "Int!", NULL)]; F_(T_(d, "B"), "toMid")["params"][1]["hasDefault"] = True
+    @m("default_bad_between_params")
+    def _(d): F_(T_(d, "B"), "toMid")["params"] = [param("a", "Int", I(1)), param("plain", "String"), param("k", "[Int!]", L([I(1), NULL])), param("z", "Int")]
+    @m("default_bad_before_param_without_default")
+    def _(d): F_(T_(d, "Root"), "OneA")["params"] = [param("x", "Int", S("one")), param("plain", "Int")]
+    @m("defaults_ok_around_params_without_default")
+    def _(d): F_(T_(d, "B"), "toMid")["params"] = [param("plain", "Int"), param("k", "[Int!]", L([I(1)])), param("q", "String"), param("z", "Int!", I(0))]
     @m("edges_of_every_shape_ok")           # T, T!, [T], [T]!, [T!], [T!]! as edges and as entrypoints
     def _(d):
         for k, t in enumerate(("A", "A!", "[A]", "[A]!", "[A!]", "[A!]!")):
